@@ -35,24 +35,92 @@ Definition demanded (b : backend) (s : settings) (p : peer) : Prop :=
       end
   end.
 
-Ltac lattice s p :=
-  destruct s as [cr ah fp cx tr]; destruct p as [iss sni asn];
-  cbn [s_cert_reqs s_assert_hostname s_fingerprint s_context s_trust p_issuer p_sni_name_ok p_assert_name_ok].
+(* ---- the lattice is finite: both facts about one handshake are decided by evaluating `wrap` at every point of it ---- *)
+Definition demandedb (b : backend) (s : settings) (p : peer) : bool :=
+  match s_fingerprint s with
+  | FPRight => true
+  | FPWrong | FPBadLength => false
+  | FPUnset =>
+      match resolve (s_cert_reqs s) with
+      | VNone => true
+      | _ => p_chain_ok b s p &&
+             match s_assert_hostname s with
+             | AHFalse => true
+             | AHName => p_assert_name_ok p
+             | AHUnset => p_sni_name_ok p || p_assert_name_ok p
+             end
+      end
+  end.
+
+Lemma demandedb_spec b s p : demandedb b s p = true -> demanded b s p.
+Proof.
+  unfold demandedb, demanded. destruct (s_fingerprint s); try discriminate; auto.
+  destruct (resolve (s_cert_reqs s)); auto; intros H; apply andb_true_iff in H as [H1 H2]; (split; [exact H1|]);
+    destruct (s_assert_hostname s); auto; apply orb_true_iff in H2; exact H2.
+Qed.
+
+Definition bools := [true; false].
+Definition backends := [BStd; BPyOpenSSL].
+Definition crs := [CRDefault; CRRequired; CROptional; CRNone].
+Definition ahs := [AHUnset; AHFalse; AHName].
+Definition fps := [FPUnset; FPRight; FPWrong; FPBadLength].
+Definition ctxs := [CtxNone; CtxChecking; CtxNotChecking; CtxPyOpenSSL].
+Definition trusts := [TFile; TDir; TData; TNothing].
+Definition issuers := [IConfigured; ISystem; IUnknown].
+Lemma in_bools x : In x bools. Proof. destruct x; cbn; tauto. Qed.
+Lemma in_backends x : In x backends. Proof. destruct x; cbn; tauto. Qed.
+Lemma in_crs x : In x crs. Proof. destruct x; cbn; tauto. Qed.
+Lemma in_ahs x : In x ahs. Proof. destruct x; cbn; tauto. Qed.
+Lemma in_fps x : In x fps. Proof. destruct x; cbn; tauto. Qed.
+Lemma in_ctxs x : In x ctxs. Proof. destruct x; cbn; tauto. Qed.
+Lemma in_trusts x : In x trusts. Proof. destruct x; cbn; tauto. Qed.
+Lemma in_issuers x : In x issuers. Proof. destruct x; cbn; tauto. Qed.
+
+(* f holds at every point: 2 backends x direct / TLS in TLS x 4 x 3 x 4 x 4 x 4 settings x 3 x 2 x 2 peers = 36 864 points *)
+Definition lattice_ok (f : backend -> bool -> settings -> peer -> bool) : bool :=
+  forallb (fun b => forallb (fun t => forallb (fun cr => forallb (fun ah => forallb (fun fp => forallb (fun cx => forallb (fun tr =>
+  forallb (fun iss => forallb (fun sni => forallb (fun asn =>
+    f b t (mkSettings cr ah fp cx tr) (mkPeer iss sni asn)) bools) bools) issuers) trusts) ctxs) fps) ahs) crs) bools) backends.
+
+Lemma lattice_ok_spec f : lattice_ok f = true -> forall b t s p, f b t s p = true.
+Proof.
+  intros H b t [cr ah fp cx tr] [iss sni asn]. unfold lattice_ok in H.
+  rewrite forallb_forall in H. specialize (H b (in_backends b)). cbn beta in H.
+  rewrite forallb_forall in H. specialize (H t (in_bools t)). cbn beta in H.
+  rewrite forallb_forall in H. specialize (H cr (in_crs cr)). cbn beta in H.
+  rewrite forallb_forall in H. specialize (H ah (in_ahs ah)). cbn beta in H.
+  rewrite forallb_forall in H. specialize (H fp (in_fps fp)). cbn beta in H.
+  rewrite forallb_forall in H. specialize (H cx (in_ctxs cx)). cbn beta in H.
+  rewrite forallb_forall in H. specialize (H tr (in_trusts tr)). cbn beta in H.
+  rewrite forallb_forall in H. specialize (H iss (in_issuers iss)). cbn beta in H.
+  rewrite forallb_forall in H. specialize (H sni (in_bools sni)). cbn beta in H.
+  rewrite forallb_forall in H. specialize (H asn (in_bools asn)). exact H.
+Qed.
+
+Definition verified_rule (s : settings) : bool :=
+  is_required (resolve (s_cert_reqs s)) || negb (match s_fingerprint s with FPUnset => true | _ => false end).
+
+Definition handshake_fact (b : backend) (t : bool) (s : settings) (p : peer) : bool :=
+  match wrap b t s p with
+  | WOk v => demandedb b s p && Bool.eqb v (verified_rule s)
+  | _ => true
+  end.
+
+Lemma handshake_facts : lattice_ok handshake_fact = true.
+Proof. vm_compute. reflexivity. Qed.
 
 (* one handshake passes only if the peer passed what its settings demand *)
 Lemma wrap_demanded : forall b t s p v, wrap b t s p = WOk v -> demanded b s p.
 Proof.
-  intros b t s p v. lattice s p. unfold wrap, demanded, p_chain_ok, anchored;
-    cbn [s_cert_reqs s_assert_hostname s_fingerprint s_context s_trust p_issuer p_sni_name_ok p_assert_name_ok].
-  destruct b, t, cr, ah, fp, cx, tr, iss, sni, asn; cbn; intros H; try discriminate; auto.
+  intros b t s p v H. pose proof (lattice_ok_spec _ handshake_facts b t s p) as F. unfold handshake_fact in F. rewrite H in F.
+  apply andb_true_iff in F as [F _]. exact (demandedb_spec _ _ _ F).
 Qed.
 
 Lemma wrap_verified : forall b t s p v, wrap b t s p = WOk v ->
   v = (is_required (resolve (s_cert_reqs s)) || negb (match s_fingerprint s with FPUnset => true | _ => false end)).
 Proof.
-  intros b t s p v. lattice s p. unfold wrap, p_chain_ok, anchored;
-    cbn [s_cert_reqs s_assert_hostname s_fingerprint s_context s_trust p_issuer p_sni_name_ok p_assert_name_ok].
-  destruct b, t, cr, ah, fp, cx, tr, iss, sni, asn; cbn; intros H; try discriminate; inversion H; reflexivity.
+  intros b t s p v H. pose proof (lattice_ok_spec _ handshake_facts b t s p) as F. unfold handshake_fact in F. rewrite H in F.
+  apply andb_true_iff in F as [_ F]. apply Bool.eqb_prop in F. exact F.
 Qed.
 
 (* not one byte of the request is written unless the server passed the checks the settings demand - and, through an
